@@ -92,7 +92,7 @@ theorem passLoop_spec (newPrev : List Name) {k : Nat} (hk : 2 ≤ k) (L : List (
           intro a ha b hb hab
           exact hP.inv.name_inj (hcmem a ha).1 (hcmem b hb).1 hab
         have hfr := newSimplex_fresh hP.inv.nodup ((cand.map (·.name)).length - 1)
-        obtain ⟨c'', bs, hadd, hI'', hsimps'', hbs, hseq⟩ := addFacets (cN := c) (fs := cand.map (·.name))
+        obtain ⟨c'', fs', bs, hadd, hI'', hsimps'', hfs', hbs, hseq⟩ := addFacets (cN := c) (fs := cand.map (·.name))
           (nm := (newSimplex c ((cand.map (·.name)).length - 1)).1) (k := k) (B := B) hP.inv (by omega) hnmnd hlen
           (by
             intro f hf
@@ -115,7 +115,7 @@ theorem passLoop_spec (newPrev : List Name) {k : Nat} (hk : 2 ≤ k) (L : List (
         -- the state after the addition
         set cNext : C := { c'' with seq := (newSimplex c ((cand.map (·.name)).length - 1)).2.seq } with hcNext
         have hsimpsNext : cNext.simps = insertSorted ⟨(newSimplex c ((cand.map (·.name)).length - 1)).1, k,
-            cand.map (·.name), bs⟩ c.simps := hsimps''
+            fs', bs⟩ c.simps := hsimps''
         have hPnext : PassInv k L c0 cNext := by
           refine ⟨inv_of_simps_eq (c := c'') rfl hI'', ?_, ?_, ?_⟩
           · rw [hsimpsNext]; exact hP.sub.trans (sublist_insertSorted _ _)
@@ -135,7 +135,7 @@ theorem passLoop_spec (newPrev : List Name) {k : Nat} (hk : 2 ≤ k) (L : List (
         · intro x hx ht hc
           rcases List.mem_cons.mp hx with rfl | hx
           · refine ⟨_, h3.subset (by rw [hsimpsNext]; exact mem_insertSorted.mpr (Or.inl rfl)), rfl, ?_⟩
-            exact setEqB_iff.mpr rfl
+            exact setEqB_iff.mpr hfs'
           · exact h4 x hx ht hc
         · intro n
           rw [List.mem_cons, h5 n]
